@@ -93,15 +93,21 @@ ChainOK(Certs, chain, trc, t) == ChainRule(Certs, chain, trc, t) = ""
 \* drift level: the leaf must be valid at the verification time as well
 ChainStrict(Certs, chain, trc, t) == ChainOK(Certs, chain, trc, t) /\ ValidAt(Certs[chain[1]], t)
 
+\* "verifies" for hand-outs and renewal: the whole path, the AS certificate included, is valid at t
+StrictRule(Certs, chain, trc, t) ==
+    IF ChainRule(Certs, chain, trc, t) # "" THEN ChainRule(Certs, chain, trc, t)
+    ELSE IF ~ValidAt(Certs[chain[1]], t) THEN "as-certificate-not-valid-at-time"
+    ELSE ""
+
 (* Active TRCs at time now: the latest TRC while it is valid; additionally its predecessor while
    now lies in the grace period the latest TRC announces (a base TRC has none).                 *)
 InGrace(latest, now) == latest.serial # latest.base /\ latest.nb <= now /\ now <= latest.nb + latest.grace
 ProviderRule(Certs, chain, latest, pred, hasPred, now) ==
     IF ~(latest.nb <= now /\ now <= latest.na) THEN "latest-trc-not-valid"
-    ELSE IF ChainOK(Certs, chain, latest, now) THEN ""
-    ELSE IF hasPred /\ InGrace(latest, now) /\ ChainOK(Certs, chain, pred, now) THEN ""
-    ELSE IF hasPred /\ ChainOK(Certs, chain, pred, now) THEN "only-predecessor-verifies-outside-grace"
-    ELSE "no-active-trc-verifies:" \o ChainRule(Certs, chain, latest, now)
+    ELSE IF ChainStrict(Certs, chain, latest, now) THEN ""
+    ELSE IF hasPred /\ InGrace(latest, now) /\ ChainStrict(Certs, chain, pred, now) THEN ""
+    ELSE IF hasPred /\ ChainStrict(Certs, chain, pred, now) THEN "only-predecessor-verifies-outside-grace"
+    ELSE "no-active-trc-verifies:" \o StrictRule(Certs, chain, latest, now)
 ProviderOK(Certs, chain, latest, pred, hasPred, now) == ProviderRule(Certs, chain, latest, pred, hasPred, now) = ""
 -----------------------------------------------------------------------------
 (* C36: generated signers.  AS certificates carry a field key (which private key they certify).
